@@ -14,7 +14,7 @@ import (
 
 type c09Sub struct {
 	Port uint   `flag:"port,8080,Listen port"`
-	Name string `flag:"|sub-name|def|Name, with a comma"`
+	Addr string `flag:"|sub-name|def|Name, with a comma"` // same Go field name as c09Cfg.Addr: only the group tells the CFG_* names apart
 }
 
 type c09Cfg struct {
@@ -47,17 +47,16 @@ var c09Fields = []c09Field{
 	{"wait", "CFG_WAIT", "duration", "1s"},
 	{"key", "CFG_KEY", "bytes", "a2V5"},
 	{"port", "CFG_DB_PORT", "uint", "8080"},
-	{"sub-name", "CFG_DB_NAME", "string", "def"},
+	{"sub-name", "CFG_DB_ADDR", "string", "def"},
 	{"notag", "CFG_NO_TAG", "int", ""},
 }
 
 // JSON member for field i (value from a small concrete set per type) and the matching plan
 var c09JSON = []string{
 	`{"Debug":true}`, `{"Count":-17}`, `{"Big":9007199254740993}`, `{"U":41}`, `{"U64":1}`, `{"Addr":"json:1"}`,
-	`{"Ratio":2.25}`, `{"Wait":2500000000}`, `{"Key":"anNvbg=="}`, `{"DB":{"Port":9}}`, `{"DB":{"Name":"jn"}}`, `{"NoTag":12}`,
+	`{"Ratio":2.25}`, `{"Wait":2500000000}`, `{"Key":"anNvbg=="}`, `{"DB":{"Port":9}}`, `{"DB":{"Addr":"jn"}}`, `{"NoTag":12}`,
 }
 
-var c09Plan = -1 // which member the JSON text mentions (engine-side stub)
 
 func c09Apply(cfg *c09Cfg, i int) {
 	switch i {
@@ -82,7 +81,7 @@ func c09Apply(cfg *c09Cfg, i int) {
 	case 9:
 		cfg.DB.Port = 9
 	case 10:
-		cfg.DB.Name = "jn"
+		cfg.DB.Addr = "jn"
 	case 11:
 		cfg.NoTag = 12
 	}
@@ -90,8 +89,10 @@ func c09Apply(cfg *c09Cfg, i int) {
 
 // engine-side replacement of config.JsonUnmarshal (see check.json func_stubs)
 func c09JsonStub(data []byte, p any) error {
-	if c09Plan >= 0 {
-		c09Apply(p.(*c09Cfg), c09Plan)
+	for i, text := range c09JSON {
+		if string(data) == text {
+			c09Apply(p.(*c09Cfg), i)
+		}
 	}
 	return nil
 }
@@ -160,7 +161,7 @@ func c09Get(cfg *c09Cfg, i int) (v c09Val) {
 	case 9:
 		v.u = uint64(cfg.DB.Port)
 	case 10:
-		v.s = cfg.DB.Name
+		v.s = cfg.DB.Addr
 	case 11:
 		v.i = int64(cfg.NoTag)
 	}
@@ -200,16 +201,30 @@ func H_C09_priority() {
 		vxUnsetEnv(fld.env)
 	}
 	vxUnsetEnv("CFG_CONFIG_B64")
+	// the JSON document is the file named by -config, else CFG_CONFIG_B64: when both carriers are present
+	// the environment one is not a source at all. other = a second field only the JSON document mentions.
+	other, fo := -1, (fi+5)%len(c09Fields)
 	if js {
-		c09Plan = fi
-		if vxPick(2) == 0 {
+		switch vxPick(3) {
+		case 0:
 			path := vxWriteFile("cfg.json", []byte(c09JSON[fi]))
 			argv = append(argv, "-config", path)
 			vxReach("JSON from file")
-		} else {
+		case 1:
 			vxSetEnv("CFG_CONFIG_B64", base64.StdEncoding.EncodeToString([]byte(c09JSON[fi])))
 			vxReach("JSON from CFG_CONFIG_B64")
+		case 2: // both carriers: the file mentions the field, CFG_CONFIG_B64 mentions another one and must be ignored
+			path := vxWriteFile("cfg.json", []byte(c09JSON[fi]))
+			argv = append(argv, "-config", path)
+			vxSetEnv("CFG_CONFIG_B64", base64.StdEncoding.EncodeToString([]byte(c09JSON[fo])))
+			vxReach("both JSON carriers present")
 		}
+	} else if vxPick(2) == 1 {
+		// both carriers, the field only in the ignored one: JSON is no source for it; the file's field holds the JSON value
+		path := vxWriteFile("cfg.json", []byte(c09JSON[fo]))
+		argv = append(argv, "-config", path)
+		vxSetEnv("CFG_CONFIG_B64", base64.StdEncoding.EncodeToString([]byte(c09JSON[fi])))
+		other = fo
 	}
 	if cli {
 		tc = c09Text(fld.kind)
@@ -247,7 +262,11 @@ func H_C09_priority() {
 	vxAssert(c09Same(c09Get(&cfg, fi), want), "C09: field does not hold the value of the highest-priority source that mentions it")
 	// every other field keeps its default
 	for j := range c09Fields {
-		if j != fi {
+		if j == other {
+			var tmp c09Cfg
+			c09Apply(&tmp, j)
+			vxAssert(c09Same(c09Get(&cfg, j), c09Get(&tmp, j)), "C09: a field only the -config file mentions does not hold the file's value")
+		} else if j != fi {
 			vxAssert(c09Same(c09Get(&cfg, j), c09Interpret(c09Fields[j].kind, c09Fields[j].def)), "C09: a field no source mentions lost its default")
 		}
 	}
